@@ -78,9 +78,10 @@ def run(ctx, chk):
                        'after free; (d) producers of fresh URIs release the output on every failure return (must-pass-through '
                        'with callee summaries); (e) revert protocol of the in-place operations: fresh text stored into the '
                        'URI is covered by the done-mask handed to the revert routine or freed locally before a failure '
-                       'return; (f) read-only inputs have empty write/free summaries on all paths. NOT decided: freedom from '
-                       'leaks for structures that already escaped into the URI (list surgery in dot removal / merge), i.e. '
-                       'the full statement for every k.')
+                       'return; (f) read-only inputs have empty write/free summaries on all paths; (g) list integrity at every '
+                       'return of the functions that free or link path-segment nodes (freed node unlinked from what the cleanup '
+                       'walks, linked malloc node terminated). NOT decided: freedom from leaks for structures that already '
+                       'escaped into the URI in general, i.e. the full statement for every k.')
     memrules.rule_typestate(ctx, chk, eng, kinds=('unchecked-alloc', 'leak-at-exit', 'lost-block', 'double-free',
                                                    'use-after-free'), rule='alloc-discipline')
     memrules.rule_alloc_failure_propagated(ctx, chk, eng)
@@ -88,4 +89,12 @@ def run(ctx, chk):
     memrules.rule_revert_protocol(ctx, chk, eng)
     memrules.rule_mask_bit_after_copy(ctx, chk, eng)
     shared.rule_readonly_inputs(ctx, chk, eng, 'C14')
+    from ..listrules import rule_list_integrity
+    chk.rule('list-integrity', 'at every return, success or failure, of a function that frees or links path-segment nodes: a freed node '
+             'is unlinked (its predecessor\'s next / pathHead reassigned, or the predecessor freed too) and a linked malloc node has its '
+             'next written -- what the cleanup after a failure walks through', floor=6)
+    nf, nfree, nlink = rule_list_integrity(ctx, chk)
+    chk.analysed['list_functions'] = nf
+    chk.analysed['node_free_sites'] = nfree
+    chk.analysed['node_link_sites'] = nlink
     chk.analysed['functions'] = len(ctx.irp.funcs)
